@@ -66,6 +66,8 @@ def main(argv: List[str]) -> int:
             meta = d / "meta.json"
             if meta.exists() and (d / "patch.diff").exists():
                 m = json.loads(meta.read_text())
+                if m.get("expect") == "obsolete":
+                    continue  # kept for the record; see its meta.json
                 jobs.append((d.name, m["property"], m.get("expect", "break"), ("patch", str(d / "patch.diff")), m.get("what", "")))
     for mid, prop, expect, how, what in jobs:
         if only and mid not in only and prop not in only:
